@@ -17,11 +17,13 @@ using namespace ctpg::ftors;
 using namespace ctpg::buffers;
 
 constexpr char number_pattern[] = "[0-9]+"; constexpr regex_term<number_pattern> number(0);         // no custom name: the documented name is r_[0-9]+
-constexpr char ident_pattern[] = "[a-z]+"; constexpr regex_term<ident_pattern> ident("ident");
+constexpr char ident_pattern[] = "[a-z]+"; constexpr regex_term<ident_pattern> ident_raw("ident");   // custom name, wrapped in a typed term below
+static int ident_len(std::string_view sv) { return int(sv.size()); }
 constexpr nterm<int> prog("prog"); constexpr nterm<int> stmt("stmt");
 
 static auto make_p() {
     static const typed_term plus(char_term('+'), create<no_type>{});
+    static const typed_term ident(ident_raw, ident_len);
     return parser(prog, terms("if", ident, number, plus, ';', '\x01'), nterms(prog, stmt), rules(
         prog() >= val(0),
         prog(prog, stmt, ';') >= [](int n, int, skip) { return n + 1; },
